@@ -296,8 +296,12 @@ func BuildType(t Type) *cloudprovider.InstanceType {
 			reqs.Add(scheduling.NewRequirement(v1alpha1.LabelReservationID, corev1.NodeSelectorOpIn, o.Rid))
 		}
 		off := &cloudprovider.Offering{Requirements: reqs, Price: float64(o.Price) / 1000.0, Available: o.Available, ReservationCapacity: o.Rcap}
-		if o.CPUOv > 0 || o.MemOv > 0 {
-			off.CapacityOverride = rl(o.CPUOv, o.MemOv, 0)
+		if o.CPUOv > 0 || o.MemOv > 0 || o.PodsOv > 0 {
+			off.CapacityOverride = rl(o.CPUOv, o.MemOv, o.PodsOv)
+		}
+		if o.OhCPU > 0 || o.OhMem > 0 {
+			// deliberately spread over other overhead categories than the base (KubeReserved): only the totals matter
+			off.OverheadOverride = &cloudprovider.InstanceTypeOverhead{SystemReserved: rl(o.OhCPU, 0, 0), EvictionThreshold: rl(0, o.OhMem, 0)}
 		}
 		offs = append(offs, off)
 	}
